@@ -1,6 +1,7 @@
 package main
 
 import (
+	"bytes"
 	"context"
 	"errors"
 	"fmt"
@@ -100,6 +101,11 @@ type seqCase struct {
 	// loader control
 	forceOutcome string
 	inQueue      bool
+	mkTarget     func(maximum uint64) *otter.Cache[int, int]
+	maintMode    bool  // closed-loop policy replay: restricted op mix, audits, maintenance markers
+	maintRuns    []int64
+	inTarget     bool
+	rndConst     uint32
 	pendingChans     []pendingRef
 	pendingBulkChans []pendingBulk
 }
@@ -171,12 +177,22 @@ func (s *seqCase) setup(caseNo int) {
 	if r.chance(50) {
 		s.refrKind = 1 + r.intn(3)
 	}
+	if s.maintMode {
+		s.refrKind = 0
+		if s.bound == 0 && s.expKind == 0 {
+			s.bound = 1 + r.intn(2)
+		}
+		s.nkeys = 4 + r.intn(5)
+	}
 	s.clk = &manualClock{now: []int64{1000, 1 << 40, 1_800_000_000_000_000_000}[r.intn(3)]}
 	opts := &otter.Options[int, int]{}
 	s.maximum = 0
 	switch s.bound {
 	case 1:
 		s.maximum = uint64(1 + r.intn(5))
+		if s.maintMode {
+			s.maximum = uint64(1 + r.intn(8))
+		}
 		opts.MaximumSize = int(s.maximum)
 	case 2:
 		s.maximum = uint64(2 + r.intn(8))
@@ -256,6 +272,21 @@ func (s *seqCase) setup(caseNo int) {
 	s.withExp = s.expKind != 0
 	s.withRefr = s.refrKind != 0
 	s.withTime = s.withExp || s.withRefr
+	{
+		base := *opts // calculators, weigher, maxima, initial capacity: what a "cache of the same configuration" shares
+		s.mkTarget = func(maximum uint64) *otter.Cache[int, int] {
+			o := base
+			if s.bound == 1 {
+				o.MaximumSize = int(maximum)
+			} else if s.bound == 2 {
+				o.MaximumWeight = maximum
+			}
+			o.Clock = s.clk
+			o.Logger = &otter.NoopLogger{}
+			o.Executor = func(fn func()) { fn() }
+			return otter.Must(&o)
+		}
+	}
 	opts.Clock = s.clk
 	opts.StatsRecorder = stats.NewCounter()
 	opts.Logger = &otter.NoopLogger{}
@@ -268,7 +299,15 @@ func (s *seqCase) setup(caseNo int) {
 	}
 	opts.OnAtomicDeletion = func(e otter.DeletionEvent[int, int]) { s.atomic = append(s.atomic, ev{e.Key, e.Value, e.Cause}) }
 	opts.OnDeletion = func(e otter.DeletionEvent[int, int]) { s.async = append(s.async, ev{e.Key, e.Value, e.Cause}) }
+	otter.VerifHook = func(id int) {
+		if id == 1 && !s.inTarget {
+			s.maintRuns = append(s.maintRuns, s.now())
+		}
+	}
 	s.c = otter.Must(opts)
+	s.rndConst = uint32(r.intn(2))
+	rc := s.rndConst
+	otter.VerifSetPolicyRand(s.c, func() uint32 { return rc })
 	wspec := "0"
 	if s.bound == 2 {
 		var sb strings.Builder
@@ -286,6 +325,19 @@ func (s *seqCase) setup(caseNo int) {
 	}
 	s.desc = fmt.Sprintf("bound=%d max=%d exp=%s refr=%s keys=%d initcap=%d", s.bound, s.maximum, expSpec, refrSpec, s.nkeys, opts.InitialCapacity)
 	s.t.line("C %d %d %d %d E %s R %s W %s", b2i(s.withExp), b2i(s.withRefr), b2i(s.bound == 2), b2i(s.bound != 0), expSpec, refrSpec, wspec)
+	if !s.maintMode {
+		s.flushMaint("newCache")
+	}
+	if s.maintMode {
+		// closed-loop replay header: random source of the admission test, initial sketch capacity, and the
+		// maintenance newCache ran through SetMaximum
+		icap := int64(-1)
+		if opts.InitialCapacity > 0 && s.bound != 0 {
+			icap = int64(min(s.maximum, uint64(opts.InitialCapacity)))
+		}
+		s.t.line("MODE maint rnd=%d initcap=%d", s.rndConst, icap)
+		s.flushMaint("newCache")
+	}
 	s.sum.Dist[fmt.Sprintf("cfg_bound%d_exp%d_refr%d", s.bound, s.expKind, b2i(s.withRefr))]++
 }
 
@@ -479,6 +531,7 @@ func (s *seqCase) runQueued() {
 	es := s.atomic[a0:]
 	if len(ls) == 0 {
 		// maintenance or notification task: every atomic event is an automatic removal
+		s.flushMaint("")
 		for _, e := range es {
 			s.t.line("O AUTO %d %d %d %d", e.k, e.v, int(e.c), now)
 			s.sum.Dist["auto_"+e.c.String()]++
@@ -528,6 +581,7 @@ func (s *seqCase) maint(name string, fn func()) {
 	fn()
 	now := s.now()
 	s.t.line("# %s", name)
+	s.flushMaint(name)
 	for _, e := range s.atomic[a0:] {
 		s.t.line("O AUTO %d %d %d %d", e.k, e.v, int(e.c), now)
 		s.sum.Dist["auto_"+e.c.String()]++
@@ -549,6 +603,9 @@ func (s *seqCase) snapshot() {
 	st := s.c.Stats()
 	fmt.Fprintf(&sb, " T %d %d %d %d %d %d", st.Hits, st.Misses, st.LoadSuccesses, st.LoadFailures, st.Evictions, st.EvictionWeight)
 	s.t.line("%s", sb.String())
+	if s.maintMode {
+		s.audit()
+	}
 }
 
 func retVB(v int, b bool) string {
@@ -597,6 +654,12 @@ func (s *seqCase) step() {
 		fn()
 	}
 	x := r.intn(118)
+	if s.maintMode {
+		// no bulk operations, refresh, InvalidateAll or iteration: one index action per operation
+		for (x >= 60 && x < 61) || (x >= 78 && x < 92) || (x >= 65 && x < 68) {
+			x = r.intn(118)
+		}
+	}
 	switch {
 	case x < 14:
 		opname = "SET"
@@ -929,13 +992,21 @@ func (s *seqCase) step() {
 }
 
 func runSeq(seed uint64, scale int, out string, _ string) *summary {
+	return runSeqMode(seed, scale, out, false)
+}
+
+func runSeqMode(seed uint64, scale int, out string, maintMode bool) *summary {
 	r := &rng{s: seed}
-	sum := newSummary("seq", seed)
+	name := "seq"
+	if maintMode {
+		name = "maint"
+	}
+	sum := newSummary(name, seed)
 	t := newTrace(out)
 	defer t.close()
 	nCases := 96 * scale
 	for cn := 0; cn < nCases; cn++ {
-		s := &seqCase{r: r, sum: sum, t: t}
+		s := &seqCase{r: r, sum: sum, t: t, maintMode: maintMode}
 		s.setup(cn)
 		sum.Cases++
 		nops := 150 + r.intn(200)
@@ -952,6 +1023,7 @@ func runSeq(seed uint64, scale int, out string, _ string) *summary {
 		s.drain()
 		s.snapshot()
 		s.finish()
+		s.persistCheck()
 		if len(sum.Samples) < 4 {
 			sum.Samples = append(sum.Samples, fmt.Sprintf("case %d: %s ops=%d", cn, s.desc, nops))
 		}
@@ -1030,4 +1102,391 @@ func (s *seqCase) finish() {
 		}
 	}
 	s.sum.Dist["events_total"] += len(s.atomic)
+}
+
+// persistCheck (C19): SaveCacheTo + LoadCacheFrom into an empty cache of the same configuration,
+// at a clock offset, compared entry by entry with the source's live contents.
+func (s *seqCase) persistCheck() {
+	r := s.r
+	type ent struct {
+		v          int
+		w          uint32
+		exp, refr  int64
+	}
+	src := map[int]ent{}
+	var totalW uint64
+	for k := 0; k < s.nkeys+2; k++ {
+		if e, ok := s.c.GetEntryQuietly(k); ok {
+			src[k] = ent{e.Value, e.Weight, e.ExpiresAtNano, e.RefreshableAtNano}
+			totalW += uint64(e.Weight)
+		}
+	}
+	srcMax := s.c.GetMaximum()
+	var buf bytes.Buffer
+	var saveErr error
+	s.maint("SaveCacheTo", func() { saveErr = otter.SaveCacheTo(s.c, &buf) })
+	if saveErr != nil {
+		s.sum.fail("C19", "save-error", "SaveCacheTo failed", s.desc+" "+saveErr.Error())
+		return
+	}
+	// clock offset between save and load
+	var off int64
+	if s.withTime {
+		minExp := int64(math.MaxInt64)
+		for _, e := range src {
+			if s.withExp && e.exp < minExp {
+				minExp = e.exp
+			}
+		}
+		switch r.intn(5) {
+		case 0:
+			off = 0
+		case 1:
+			off = 1
+		case 2:
+			if minExp != math.MaxInt64 && minExp > s.clk.now {
+				off = minExp - s.clk.now // exactly at the first deadline
+			}
+		case 3:
+			if minExp != math.MaxInt64 && minExp > s.clk.now {
+				off = minExp - s.clk.now - 1
+			}
+		default:
+			off = []int64{5, 50, 1 << 31}[r.intn(3)]
+		}
+		if s.clk.now > math.MaxInt64/2 {
+			off = 0
+		}
+	}
+	s.clk.now += off
+	now := s.now()
+	// target maximum: same, larger or smaller
+	tmax := srcMax
+	kind := "same"
+	if s.bound != 0 {
+		switch r.intn(4) {
+		case 0:
+			tmax = srcMax + 1 + uint64(r.intn(5))
+			kind = "larger"
+		case 1:
+			if srcMax > 1 {
+				tmax = 1 + uint64(r.intn(int(srcMax)-1))
+				kind = "smaller"
+			}
+		}
+		if tmax == 0 {
+			tmax = 1 // a target cannot be built with maximum 0
+			if srcMax == 0 {
+				kind = "larger"
+			}
+		}
+	}
+	s.inTarget = true
+	defer func() { s.inTarget = false }()
+	tgt := s.mkTarget(tmax)
+	defer tgt.StopAllGoroutines()
+	if err := otter.LoadCacheFrom(tgt, &buf); err != nil {
+		s.sum.fail("C19", "load-error", "LoadCacheFrom failed", s.desc+" "+err.Error())
+		return
+	}
+	tgt.CleanUp()
+	s.sum.Dist["persist_"+kind]++
+	desc := fmt.Sprintf("%s | save: entries=%v max=%d; load at +%dns into maximum %d (%s)", s.desc, src, srcMax, off, tmax, kind)
+	var liveW uint64
+	live := map[int]ent{}
+	for k, e := range src {
+		if !s.withExp || e.exp > now {
+			live[k] = e
+			liveW += uint64(e.w)
+		}
+	}
+	fits := s.bound == 0 || (totalW <= srcMax && liveW <= tmax && totalW <= tmax)
+	got := map[int]ent{}
+	var gotW uint64
+	for k := 0; k < s.nkeys+2; k++ {
+		if e, ok := tgt.GetEntryQuietly(k); ok {
+			got[k] = ent{e.Value, e.Weight, e.ExpiresAtNano, e.RefreshableAtNano}
+			gotW += uint64(e.Weight)
+		}
+	}
+	for k, g := range got {
+		e, ok := live[k]
+		if !ok {
+			what := "an entry that was absent"
+			if se, was := src[k]; was {
+				what = fmt.Sprintf("an entry expired at load time (exp=%d, now=%d)", se.exp, now)
+			}
+			s.sum.fail("C19", "loaded-extra", "LoadCacheFrom loaded "+what, fmt.Sprintf("%s key=%d", desc, k))
+			continue
+		}
+		if g.v != e.v {
+			s.sum.fail("C19", "loaded-value", "loaded value differs", fmt.Sprintf("%s key=%d saved=%d loaded=%d", desc, k, e.v, g.v))
+		}
+		if s.withExp && g.exp != e.exp && e.exp == math.MaxInt64 {
+			s.sum.fail("C19", "loaded-expiry-never-expiring", "an entry saved with expiration time MaxInt64 (never) was loaded with the calculator's deadline",
+				fmt.Sprintf("%s key=%d saved=%d loaded=%d now=%d", desc, k, e.exp, g.exp, now))
+		} else if s.withExp && g.exp != e.exp {
+			s.sum.fail("C19", "loaded-expiry", "loaded expiration deadline differs", fmt.Sprintf("%s key=%d saved=%d loaded=%d now=%d", desc, k, e.exp, g.exp, now))
+		}
+		if s.withRefr {
+			if e.refr > now && g.refr != e.refr && e.refr == math.MaxInt64 {
+				s.sum.fail("C19", "loaded-refresh-never", "an entry saved with refresh time MaxInt64 (never) was loaded with the calculator's refresh time",
+					fmt.Sprintf("%s key=%d saved=%d loaded=%d now=%d", desc, k, e.refr, g.refr, now))
+			} else if e.refr > now && g.refr != e.refr {
+				s.sum.fail("C19", "loaded-refresh", "loaded refresh deadline differs", fmt.Sprintf("%s key=%d saved=%d loaded=%d now=%d", desc, k, e.refr, g.refr, now))
+			}
+			if e.refr <= now && g.refr > now+1 {
+				s.sum.fail("C19", "loaded-refresh-due", "an entry due for refresh was not loaded as due", fmt.Sprintf("%s key=%d saved=%d loaded=%d now=%d", desc, k, e.refr, g.refr, now))
+			}
+		}
+	}
+	if fits {
+		for k := range live {
+			if _, ok := got[k]; !ok {
+				sig := "not-loaded"
+				if live[k].w == 0 {
+					sig = "not-loaded-zero-weight"
+				}
+				s.sum.fail("C19", sig, "a live saved entry was not loaded although the contents fit the target", fmt.Sprintf("%s key=%d", desc, k))
+			}
+		}
+	} else if s.bound != 0 && gotW > tmax {
+		s.sum.fail("C19", "loaded-over-bound", "loaded cache exceeds its own bound", fmt.Sprintf("%s loadedWeight=%d", desc, gotW))
+	}
+	s.sum.Dist["persist_entries"] += len(live)
+}
+
+// ---------------------------------------------------------------- closed-loop policy replay (maint mode)
+
+// flushMaint writes one "M" line per maintenance run observed since the last flush (the hook at the
+// start of cache.maintenance), preceded by the policy maxima when SetMaximum changed them.
+func (s *seqCase) flushMaint(name string) {
+	if (strings.HasPrefix(name, "SetMaximum") || name == "newCache") && s.bound != 0 {
+		a := otter.VerifAudit(s.c)
+		s.t.line("X %d %d %d", a.Maximum, a.WindowMaximum, a.ProtectedMaximum)
+	}
+	if !s.maintMode {
+		s.maintRuns = s.maintRuns[:0]
+		return
+	}
+	for _, now := range s.maintRuns {
+		s.t.line("M %d", now)
+		s.sum.Dist["maintenance_runs"]++
+	}
+	s.maintRuns = s.maintRuns[:0]
+}
+
+func vnList(tag string, ns []otter.VerifNode[int, int]) string {
+	var sb strings.Builder
+	fmt.Fprintf(&sb, "%s %d", tag, len(ns))
+	for _, n := range ns {
+		fmt.Fprintf(&sb, " %d", n.Value)
+	}
+	return sb.String()
+}
+
+// audit writes the policies' bookkeeping and evaluates the implementation-only oracles of C04/C05.
+func (s *seqCase) audit() {
+	a := otter.VerifAudit(s.c)
+	var sb strings.Builder
+	fmt.Fprintf(&sb, "A %d %d %d", a.DrainStatus, a.WriteBufferSize, a.ReadBufferLen)
+	if a.WithEviction {
+		fmt.Fprintf(&sb, " | %s | %s | %s | C %d %d %d %d %d %d %d %d", vnList("W", a.Window), vnList("P", a.Probation), vnList("T", a.Protected),
+			a.Maximum, a.WeightedSize, a.WindowMaximum, a.WindowSize, a.ProtectedMaximum, a.ProtSize, b2iG(a.SketchInit), a.SketchTableLen)
+		// the hashes the sketch gives every key under the current seed
+		fmt.Fprintf(&sb, " | H %d", s.nkeys+2)
+		for k := 0; k < s.nkeys+2; k++ {
+			fmt.Fprintf(&sb, " %d", otter.VerifSketchHash(s.c, k))
+		}
+	}
+	if a.WithExpiration {
+		nb := 0
+		var wb strings.Builder
+		for i, lvl := range a.Wheel {
+			for j, b := range lvl {
+				if len(b) > 0 {
+					nb++
+					fmt.Fprintf(&wb, " %d %d %d", i, j, len(b))
+					for _, n := range b {
+						fmt.Fprintf(&wb, " %d", n.Value)
+					}
+				}
+			}
+		}
+		fmt.Fprintf(&sb, " | WH %d %d%s", a.WheelTime, nb, wb.String())
+	}
+	// node states
+	seen := map[int]otter.VerifNode[int, int]{}
+	add := func(ns []otter.VerifNode[int, int]) {
+		for _, n := range ns {
+			seen[n.Value] = n
+		}
+	}
+	add(a.Window)
+	add(a.Probation)
+	add(a.Protected)
+	for _, lvl := range a.Wheel {
+		for _, b := range lvl {
+			add(b)
+		}
+	}
+	add(a.Table)
+	vals := make([]int, 0, len(seen))
+	for v := range seen {
+		vals = append(vals, v)
+	}
+	sort.Ints(vals)
+	fmt.Fprintf(&sb, " | N %d", len(vals))
+	for _, v := range vals {
+		fmt.Fprintf(&sb, " %d %d %d", v, seen[v].State, seen[v].Queue)
+	}
+	s.t.line("%s", sb.String())
+	s.policyOracles(a)
+}
+
+func b2iG(b bool) int {
+	if b {
+		return 1
+	}
+	return 0
+}
+
+// policyOracles: C04 / C05 on the implementation's own bookkeeping, evaluated when the cache is
+// quiescent and maintenance has run (nothing queued, both buffers empty, drain status idle).
+func (s *seqCase) policyOracles(a otter.VerifAuditData[int, int]) {
+	if len(s.queue) != 0 || a.WriteBufferSize != 0 || a.ReadBufferLen != 0 || a.DrainStatus != 0 {
+		return
+	}
+	s.sum.Dist["quiescent_audits"]++
+	table := map[int]otter.VerifNode[int, int]{}
+	var sumW uint64
+	for _, n := range a.Table {
+		table[n.Value] = n
+		sumW += uint64(n.Weight)
+	}
+	desc := func() string { return fmt.Sprintf("%s now=%d table=%v", s.desc, s.now(), a.Table) }
+	if s.c.EstimatedSize() != len(a.Table) {
+		s.sum.fail("C05", "estimated-size", "EstimatedSize differs from the number of entries in the table", fmt.Sprintf("%s est=%d table=%d", desc(), s.c.EstimatedSize(), len(a.Table)))
+	}
+	if a.WithEviction {
+		inQ := map[int]int{}
+		var qsum, wsum, psum uint64
+		for qi, q := range [][]otter.VerifNode[int, int]{a.Window, a.Probation, a.Protected} {
+			for _, n := range q {
+				inQ[n.Value]++
+				qsum += uint64(n.Weight)
+				if qi == 0 {
+					wsum += uint64(n.Weight)
+				}
+				if qi == 2 {
+					psum += uint64(n.Weight)
+				}
+				if n.Queue != qi {
+					s.sum.fail("C05", "queue-tag", "a node is linked in a deque other than the one its queue tag names", desc())
+				}
+				if _, ok := table[n.Value]; !ok {
+					s.sum.fail("C05", "tracked-removed", "a removed entry is still tracked by the eviction policy", fmt.Sprintf("%s value=%d", desc(), n.Value))
+				}
+			}
+		}
+		for v := range table {
+			if inQ[v] != 1 {
+				s.sum.fail("C05", "present-untracked", "an entry is present but not linked exactly once in the eviction policy",
+					fmt.Sprintf("%s value=%d links=%d", desc(), v, inQ[v]))
+			}
+		}
+		if a.WeightedSize != sumW {
+			s.sum.fail("C05", "weighted-size", "the policy's weighted size differs from the sum of the weights of the entries present",
+				fmt.Sprintf("%s weightedSize=%d sum=%d", desc(), a.WeightedSize, sumW))
+		}
+		if a.WindowSize != wsum || a.ProtSize != psum {
+			s.sum.fail("C05", "queue-size", "a per-queue weight counter differs from the weights linked in that queue",
+				fmt.Sprintf("%s window=%d/%d protected=%d/%d", desc(), a.WindowSize, wsum, a.ProtSize, psum))
+		}
+		if sumW > a.Maximum {
+			s.sum.fail("C04", "over-bound", "total weight exceeds the maximum at quiescence", fmt.Sprintf("%s sum=%d maximum=%d", desc(), sumW, a.Maximum))
+		}
+		for _, n := range a.Table {
+			if uint64(n.Weight) > a.Maximum {
+				s.sum.fail("C04", "oversized-retained", "an entry heavier than the maximum is retained", fmt.Sprintf("%s value=%d weight=%d", desc(), n.Value, n.Weight))
+			}
+		}
+		// the public views (each of them runs maintenance itself: traced like any other maintenance)
+		var ws uint64
+		all, hot, cold := map[int]int{}, map[int]int{}, map[int]int{}
+		dupView := ""
+		s.maint("views", func() {
+			if s.bound == 2 {
+				ws = s.c.WeightedSize()
+			}
+			for e := range s.c.Hottest() {
+				if _, dup := hot[e.Key]; dup {
+					dupView = "Hottest"
+				}
+				hot[e.Key] = e.Value
+			}
+			for e := range s.c.Coldest() {
+				if _, dup := cold[e.Key]; dup {
+					dupView = "Coldest"
+				}
+				cold[e.Key] = e.Value
+			}
+			for k, v := range s.c.All() {
+				all[k] = v
+			}
+		})
+		if s.bound == 2 && ws != sumW {
+			s.sum.fail("C05", "weighted-size", "WeightedSize() differs from the sum of the weights of the entries present", fmt.Sprintf("%s WeightedSize=%d sum=%d", desc(), ws, sumW))
+		}
+		if dupView != "" {
+			s.sum.fail("C05", "views-duplicate", dupView+" yields an entry twice", desc())
+		}
+		for name, m := range map[string]map[int]int{"Hottest": hot, "Coldest": cold} {
+			same := len(m) == len(all)
+			for k, v := range all {
+				if m[k] != v {
+					same = false
+				}
+			}
+			if !same {
+				s.sum.fail("C05", "views-disagree", name+" does not enumerate exactly the entries iteration yields", fmt.Sprintf("%s All=%v %s=%v", desc(), all, name, m))
+			}
+		}
+	}
+	if a.WithExpiration {
+		inW := map[int]int{}
+		for _, lvl := range a.Wheel {
+			for _, b := range lvl {
+				for _, n := range b {
+					inW[n.Value]++
+					if _, ok := table[n.Value]; !ok {
+						s.sum.fail("C05", "tracked-removed", "a removed entry is still tracked by the expiration policy", fmt.Sprintf("%s value=%d", desc(), n.Value))
+					}
+				}
+			}
+		}
+		for v := range table {
+			if inW[v] != 1 {
+				s.sum.fail("C05", "present-untracked", "an entry is present but not scheduled exactly once in the expiration policy",
+					fmt.Sprintf("%s value=%d links=%d", desc(), v, inW[v]))
+			}
+		}
+		// C13: after maintenance at T nothing whose deadline lies more than one tick before T is left
+		const tick = int64(1) << 30
+		for _, n := range a.Table {
+			if n.Exp < int64(a.WheelTime)-tick && s.writeReturnedBefore(n.Value, int64(a.WheelTime)-tick) {
+				s.sum.fail("C13", "unswept", "an entry expired more than one tick ago survived maintenance",
+					fmt.Sprintf("%s value=%d exp=%d wheelTime=%d", desc(), n.Value, n.Exp, a.WheelTime))
+			}
+		}
+	}
+}
+
+// writeReturnedBefore: in this single-goroutine engine every write has returned when the audit runs.
+func (s *seqCase) writeReturnedBefore(value int, t int64) bool { return true }
+
+func init() {
+	engines["maint"] = func(seed uint64, scale int, out string, replay string) *summary {
+		return runSeqMode(seed, scale, out, true)
+	}
 }
